@@ -20,6 +20,7 @@ RULE = ("graphs from C08's workload (G-sim, all window kinds, launch-edge flag o
         "Distinct = hash of (trace, window, flag, cycles).")
 ASSUMPTIONS = ["restore_cpgraph always extracts under /tmp; the extracted directories are removed after each case",
                "breakdown frames are compared up to row order and dtype"]
+FLOAT_KEYS = ["files"]          # fractional-time-unit workload class (hv/shard.py)
 PLAN = {"quick": {"shards": 16, "cases": 192, "timeout": 900}, "thorough": {"shards": 16, "cases": 2000, "timeout": 3400}}
 FLOORS = {"quick": {"distinct_nontrivial": 60, "cycles": 250, "graphs": 120, "clamped_edge_graphs": 10, "breakdowns_compared": 250, "graphs_with_csv_hostile_names": 30},
           "thorough": {"distinct_nontrivial": 900, "cycles": 4000, "graphs": 1900, "clamped_edge_graphs": 150, "breakdowns_compared": 4000, "graphs_with_csv_hostile_names": 500}}
